@@ -126,6 +126,9 @@ func parseMethodLine(ctx *context, c *Converter, m *Method, value string) (err e
 			return err
 		}
 		f := m.Field(target)
+		if f.Source != "" || f.Function != nil || f.Ignore {
+			return fmt.Errorf("the field %q is already configured by another goverter:map or goverter:ignore setting", target)
+		}
 		f.Source = source
 
 		if custom != "" {
@@ -143,6 +146,9 @@ func parseMethodLine(ctx *context, c *Converter, m *Method, value string) (err e
 		fieldSetting = true
 		fields := strings.Fields(rest)
 		for _, f := range fields {
+			if existing := m.Field(f); existing.Source != "" || existing.Function != nil {
+				return fmt.Errorf("the field %q is already configured by a goverter:map setting", f)
+			}
 			m.Field(f).Ignore = true
 		}
 	case "update":
